@@ -157,6 +157,12 @@ Definition valid_sc (s : state) (a : Z) : bool := (0 <=? a) && (a <? Z.of_nat (l
                      The committed flag is set by this op already: it gates only ops 9/10, which
                      need st = 3, and st = 3 is reached again only through onSuccess =
                      commitAttemptLocked (every failure path commits or ends the RPC as well).
+   [11;o]            an LB policy publishes a picker through ccBalancerWrapper.UpdateState: o = 0 the
+                     channel's current policy (= [2]); o <> 0 the policy of a balancer wrapper that
+                     was closed when the channel entered idle mode: dropped, a no-op (a pick never
+                     sees a picker of a policy that is not the channel's current one)
+   [12]              ClientConn.enterIdleMode: pickerWrapper.reset() (= [3]), the balancer wrapper is
+                     closed and replaced by a fresh one
    anything else, or an op that does not apply in the current state, is a no-op *)
 Inductive dop := DStart (t f : Z) | DUpdate | DReset | DClose | DPick (t kind a b ns : Z) | DSetSC (a r : Z)
   | DCancel (t how : Z) | DFinish (t e : Z) | DOpFail (t : Z) | DRetryFail (t : Z) | DNop.
@@ -172,6 +178,8 @@ Definition decode (op : word) : dop :=
   | [8; t; e] => DFinish t e
   | [9; t] => DOpFail t
   | [10; t] => DRetryFail t
+  | [11; o] => if o =? 0 then DUpdate else DNop
+  | [12] => DReset
   | _ => DNop
   end.
 
